@@ -1339,6 +1339,9 @@ class Stage:
         if self.master:
             if self._is_original:
                 self.master._var_is_transcribed = val
+                if not val and self.master._var_augmented is not None:
+                    # The transcribed copy describes an earlier version of the specification: it is never used again
+                    self.master._var_augmented._var_stale = True
 
     """
         In fact, both the original and the augmented should separately kee a transcribed flag
